@@ -53,6 +53,37 @@ def to_snake(s):
     return ''.join(out)
 
 
+class Num:
+    """a numeric payload of a model literal: Rust primitive type + value; printed the way quote! prints a primitive (a literal suffixed with its type)"""
+    __slots__ = ('ty', 'value')
+
+    def __init__(self, ty, value):
+        self.ty, self.value = ty, value
+
+    def text(self):
+        import math
+        v = self.value
+        if self.ty.startswith('f'):
+            if math.copysign(1.0, v) < 0 and v == 0:
+                body = '-0'
+            elif v == int(v) and abs(v) < 1e15:
+                body = str(int(v))
+            else:
+                body = repr(v)
+            return body + self.ty
+        return f'{v}{self.ty}'
+
+    def __eq__(self, o):
+        import math
+        return isinstance(o, Num) and o.ty == self.ty and o.value == self.value and math.copysign(1, o.value) == math.copysign(1, self.value)
+
+    def __hash__(self):
+        return hash((self.ty, self.value))
+
+    def __repr__(self):
+        return f'Num({self.text()})'
+
+
 class Handle(tuple):
     pass
 
@@ -398,6 +429,11 @@ class SkelEval(Eval):
 
     def ev_bin(self, t):
         a, b = self.norm_flags(self.ev(t[2])), self.norm_flags(self.ev(t[3]))
+        if t[1] in ('<', '>', '<=', '>='):
+            x, y = (a.value if isinstance(a, Num) else a), (b.value if isinstance(b, Num) else b)
+            if isinstance(x, (int, float)) and isinstance(y, (int, float)) and not isinstance(x, bool) and not isinstance(y, bool):
+                return {'<': x < y, '>': x > y, '<=': x <= y, '>=': x >= y}[t[1]]
+            raise Unbound(t)
         if isinstance(a, Flags) and isinstance(b, Flags):
             if t[1] == '|':
                 return Flags(a.ty, a.bits | b.bits)
@@ -435,6 +471,15 @@ class SkelEval(Eval):
         if m == 'to_ctx':
             return self.ev(recv)
         r = self.ev(recv)
+        if isinstance(r, Num):
+            import math
+            if m == 'abs':
+                return Num(r.ty, abs(r.value))
+            if m == 'is_sign_negative':
+                return math.copysign(1, r.value) < 0
+            if m == 'is_sign_positive':
+                return math.copysign(1, r.value) > 0
+            raise Unbound(t)
         if m in ('keys',):
             return list(r.keys())
         if m == 'values':
@@ -494,6 +539,16 @@ class SkelEval(Eval):
             return Tok(str(int(self.ev(args[0]))))
         if p == 'Literal::string':
             return Tok(rust_str(str(self.ev(args[0]))))
+        if p == 'naga::Literal::zero' and len(args) == 1:
+            sc = self.ev(args[0])
+            if isinstance(sc, V) and 'kind' in sc.fields:
+                k, w = sc.fields['kind'].path.split('::')[-1], sc.fields['width']
+                table = {('Float', 8): ('F64', Num('f64', 0.0)), ('Float', 4): ('F32', Num('f32', 0.0)), ('Uint', 4): ('U32', Num('u32', 0)), ('Sint', 4): ('I32', Num('i32', 0)),
+                         ('Uint', 8): ('U64', Num('u64', 0)), ('Sint', 8): ('I64', Num('i64', 0)), ('Bool', 1): ('Bool', False)}
+                if (k, w) in table:
+                    var, val = table[(k, w)]
+                    return ('some', V('naga::Literal::' + var, **{'0': val}))
+                return None
         if p == 'include_str!':
             return Tok('include_str ! ( ' + rust_str(str(self.ev(args[0]))) + ' )')
         if p.endswith('ShaderStages::all'):
@@ -577,6 +632,8 @@ class SkelEval(Eval):
             return str(v)
         if isinstance(v, bool):
             return 'true' if v else 'false'
+        if isinstance(v, Num):
+            return v.text()
         if v is None:
             return ''
         if isinstance(v, tuple) and v and v[0] == 'some':
